@@ -91,6 +91,9 @@ def Prim.wfB : Prim → Val → Bool
   | .fixed n, .bytes b => b.length = n
   | .key, .pair (.bytes ns) (.bytes val) =>
     keyValid ⟨ns, val⟩ && !ns.isEmpty && decide ((keyString ⟨ns, val⟩).length ≤ defaultMaxStringSize * 4)
+  | .minKey, .pair (.bytes ns) (.bytes val) =>
+    ns.all nsCharOk && val.all valCharOk && !ns.isEmpty &&
+      decide ((minimalKey ⟨ns, val⟩).length ≤ defaultMaxStringSize * 4)
   | .blob len, .bytes b => len b == some b.length
   | _, _ => false
 
@@ -105,7 +108,8 @@ def Schema.wfB : Schema → Val → Bool
   | .arr _ max s, v =>
     let xs := v.elems
     Val.ofList xs == v && xs.all (wfB s) && decide (xs.length < 2 ^ 31) && !overMax max xs.length
-  | .sw tag body, .pair (.int t) x => tag.wfB (.int t) && wfB (body t) x
+  | .sw tag n body dflt, .pair (.int t) x =>
+    tag.wfB (.int t) && (if h : 0 ≤ t ∧ t.toNat < n then wfB (body ⟨t.toNat, h.2⟩) x else wfB dflt x)
   | _, _ => false
 
 def PSchema.wfB (ps : PSchema) (v : Val) : Bool :=
